@@ -54,6 +54,15 @@ def describe(o):
     return {k: v for k, v in o.items() if k != "mag"}
 
 
+def dumped(o, count):
+    """the moduli the harness dumped, as exact rationals; a dump whose length is not the sample count the observation reports is an
+    inconsistency of the HARNESS (the oracle would silently judge a different matrix than the library saw), never a verdict on /repo"""
+    if len(o["mag"]) != count:
+        raise CheckError(f"harness inconsistency in a C11 '{o['kind']}' observation: {len(o['mag'])} moduli dumped for a reported sample count of {count} "
+                         f"({ {k: o[k] for k in ('setup', 'n', 'nx', 'ny') if k in o} }); the oracle refuses to judge a matrix the library did not see")
+    return [frac_of_hex(h) for h in o["mag"]]
+
+
 def oracle(ctx, obs):
     """S5: the property's own clauses on the Rust results"""
     for c in [o for o in obs if o["kind"] == "harness_crash"]:
@@ -100,7 +109,7 @@ def oracle(ctx, obs):
                                   {"len": L, "outcome": cls, "msg": msg, "call": f"schmidt_number(vec of {L} entries, 1 at k%7==0)"})
         elif k in ("val", "fval"):
             n = o["n"]
-            mags = [frac_of_hex(h) for h in o["mag"]]
+            mags = dumped(o, n * n)
             fam = o.get("family", f"float{o.get('shape')}")
             ctx.seen((k, n, tuple(o["mag"])))
             ctx.count(f"{k}:{fam}")
@@ -177,7 +186,7 @@ def oracle(ctx, obs):
             if not same:
                 ctx.violation("S5", f"JointSpectrum::schmidt_number ({d}) differs from schmidt_number(jsa_range) ({v}) for setup {o['setup']}, n={n}",
                               {"kind": "setup_vs_array", "setup": o["setup"], "n": n}, rep)
-            mags = [frac_of_hex(h) for h in o["mag"]]
+            mags = dumped(o, nx * ny)
             if n is None:
                 if d["class"] != "err":
                     ctx.violation("S5", f"JointSpectrum::schmidt_number on a {nx}x{ny} range ({nx * ny} samples, not a perfect square) is not rejected: {d}",
@@ -213,7 +222,7 @@ def correspondence(ctx, obs, max_n_float):
             continue
         if o["kind"] == "fval" and o["n"] > max_n_float:
             continue
-        mags = [frac_of_hex(h) for h in o["mag"]]
+        mags = dumped(o, o["n"] * o["n"])
         if all(m == 0 for m in mags) or not is_finite_hex(o["base"]["k"]):
             continue
         cid = f"k{len(exprs)}"
